@@ -40,6 +40,7 @@ func c01(r *rep.Run) {
 	progs := Programs(Core(), []term.Ty{B}, coreMax)
 	nCore := len(progs)
 	progs = append(progs, Programs(Rich(), []term.Ty{B, I}, richMax)...)
+	progs = append(progs, widePrograms(6)...)
 	r.Cov["programs_core"] = nCore
 	r.Cov["programs_rich"] = len(progs) - nCore
 
